@@ -265,6 +265,9 @@ def check_property(prop, tier, seed, keep=False, verbose=False):
                                    "probe_" + k["id"])] = ("probe", k["unit"], k)
             extra_seeds = []
             if tier == "thorough":
+                for un in unit_names:
+                    unit = UNITS[un]
+                    futs[ex.submit(run_unit, unit, workdir, seed, None, frozenset(["negate:ensures"]), "twin")] = ("twin", un, None)
                 for s in (seed + 1, seed + 2):
                     for un in unit_names:
                         unit = UNITS[un]
@@ -276,6 +279,8 @@ def check_property(prop, tier, seed, keep=False, verbose=False):
                     runs[un] = ur
                 elif kind == "probe":
                     probes[extra["id"]] = (extra, ur)
+                elif kind == "twin":
+                    runs.setdefault("__twins__", []).append((un, ur))
                 else:
                     runs.setdefault("__seeds__", []).append((un, extra, ur))
         # ---- triage
@@ -334,6 +339,24 @@ def check_property(prop, tier, seed, keep=False, verbose=False):
             seed_ids = set(f["id"] for f in ur.failures)
             if main_ids != seed_ids:
                 undecided.append("%s: unstable across SMT seeds (seed %s: %s vs %s)" % (un, s, sorted(seed_ids), sorted(main_ids)))
+        # must-fail twins (thorough): every verified function with an ensures clause must have a rejected negated clause
+        twin_report = []
+        for (un, ur) in runs.get("__twins__", []):
+            if ur.gen is None or (ur.undecided and not ur.failures):
+                undecided.append("%s (must-fail twin): %s" % (un, "; ".join(ur.undecided)))
+                continue
+            unit = UNITS[un]
+            failed_fns = set(f["fn"][:-len("__twin")] for f in ur.failures if f["kind"] in ("ensures",) and f["fn"] and f["fn"].endswith("__twin"))
+            for it in unit.items:
+                cands = [it] if hasattr(it, "ensures") else []   # trait-impl methods cannot be renamed: no twin
+                for fn in cands:
+                    mode = getattr(it, "mode", "verify")
+                    if mode != "verify" or not [c for c in fn.ensures if not getattr(c, "stub_only", False)]:
+                        continue
+                    ok = fn.key in failed_fns
+                    twin_report.append({"unit": un, "function": fn.key, "negated_contract_rejected": ok})
+                    if not ok:
+                        undecided.append("%s: negated contract of %s was NOT rejected (vacuous contract?)" % (un, fn.key))
         # probes
         kf_report = []
         for kid, (k, ur) in probes.items():
@@ -383,6 +406,7 @@ def check_property(prop, tier, seed, keep=False, verbose=False):
                 "unit_wall_s": {un: round(runs[un].wall_s, 2) for un in unit_names},
                 "canary_rejected": {un: runs[un].canary_failed for un in unit_names},
                 "known_findings": kf_report,
+                "must_fail_twins": twin_report,
                 "extraction": {"items": items, "rewrites": rewrites},
                 "samples": sample_obligations(runs, unit_names, UNITS, prop),
                 "undecided": undecided,
